@@ -36,7 +36,7 @@ func init() {
 	fw.Register(&fw.Property{
 		ID:    "C20",
 		Level: "exploration",
-		Rule: "cases per adapter: (a) pubsubcoreapi over a SCRIPTED coreiface.PubSubAPI: the i-th Peers call returns the i-th of 5-30 PRNG membership sets (including swaps that keep the size equal and empty sets); scripted subscription streams mixing own and foreign senders with payloads 0 B - 64 KiB; (b) oneonone: two channel sets over one in-memory pubsub hub (which, like real pubsub, echoes a peer its own messages), both Connect, payloads with unique ids sent from both ends in a PRNG interleaving, also with concurrent Connect calls, and in two cases of three A's Connect context ends (its store is closed) and A connects again with a new one, twice, with a further exchange each time; (c) directchannel over in-memory libp2p (mocknet) hosts: payload sizes {0, 1, 1 KiB, 4 MiB-1, 4 MiB, 4 MiB+1, 6 MiB} and PRNG sizes, concurrent senders, in every second case over streams that hand each write to the transport in PRNG pieces of 1 B - 64 KiB (a stream has no message boundaries); (d) pubsubraw over real go-libp2p-pubsub on mocknet. " +
+		Rule: "cases per adapter: (a) pubsubcoreapi over a SCRIPTED coreiface.PubSubAPI: the i-th Peers call returns the i-th of 5-30 PRNG membership sets (including swaps that keep the size equal and empty sets); scripted subscription streams mixing own and foreign senders with payloads 0 B - 64 KiB; (b) oneonone: two channel sets over one in-memory pubsub hub (which, like real pubsub, echoes a peer its own messages), both Connect, payloads with unique ids sent from both ends in a PRNG interleaving, also with concurrent Connect calls, and in two cases of three A's Connect context ends (its store is closed) and A connects again with a new one, twice, with a further exchange each time; (c) directchannel over in-memory libp2p (mocknet) hosts: payload sizes {0, 1, 1 KiB, 4 MiB-1, 4 MiB, 4 MiB+1, 6 MiB} and PRNG sizes, concurrent senders, in every second case over streams that hand each write to the transport in PRNG pieces of 1 B - 64 KiB (a stream has no message boundaries); (d) pubsubraw over real go-libp2p-pubsub on mocknet, including a remote peer that leaves the topic and joins it again. " +
 			"distinct = hash(adapter, script); non-trivial = adapter (a): >= 3 membership changes incl. a leave; (b),(c),(d): >= 5 payloads delivered and the closing marker payload arrived",
 		Assumptions: []string{"scripted coreiface.PubSubAPI / in-memory hub / mocknet stand in for the network", "loss is decided only after a marker payload sent afterwards on the same path has arrived and the counts are stable (marker never arriving => inconclusive)"},
 		Cases:       c20Cases,
@@ -880,7 +880,9 @@ func c20Raw(c fw.Case) fw.Verdict {
 	}
 	pA, _ := tA.WatchPeers(ctx)
 	mchA, _ := tA.WatchMessages(ctx)
-	mchB, _ := tB.WatchMessages(ctx)
+	ctxB1, cancelB1 := context.WithCancel(ctx)
+	defer cancelB1()
+	mchB, _ := tB.WatchMessages(ctxB1)
 	// eventual: A must see B join exactly once
 	joins := 0
 	deadline := time.After(30 * time.Second)
@@ -951,6 +953,59 @@ recv:
 	if joins != 1 {
 		return fw.Verdict{Status: fw.Violated, Key: "membership-event-duplicated/raw", NonTrivial: true, What: fmt.Sprintf("the remote peer's join was reported %d times", joins)}
 	}
+	// the remote peer leaves the topic and joins it again: one leave, then one more join
+	cancelB1()
+	leaves := 0
+	ldl := time.After(30 * time.Second)
+waitLeave:
+	for {
+		select {
+		case ev := <-pA:
+			if l, ok := ev.(*iface.EventPubSubLeave); ok && l.Peer == hB.ID() {
+				leaves++
+				break waitLeave
+			}
+		case <-ldl:
+			return fw.Verdict{Status: fw.Inconclusive, What: "the remote peer's leave was not seen within the watchdog"}
+		}
+	}
+	mchB2, _ := tB.WatchMessages(ctx)
+	marker2 := []byte("marker2-from-A")
+	rdl := time.After(30 * time.Second)
+	tick := time.NewTicker(300 * time.Millisecond)
+	defer tick.Stop()
+	_ = tA.Publish(ctx, marker2)
+rejoined:
+	for {
+		select {
+		case m := <-mchB2:
+			if bytes.Equal(m.Content, marker2) {
+				break rejoined // A forwards to B again: A's pubsub knows that B is on the topic
+			}
+		case <-tick.C:
+			_ = tA.Publish(ctx, marker2)
+		case <-rdl:
+			return fw.Verdict{Status: fw.Inconclusive, What: "the remote peer did not receive anything after subscribing again"}
+		}
+	}
+	time.Sleep(300 * time.Millisecond)
+	joins2 := 0
+	for len(pA) > 0 {
+		switch ev := (<-pA).(type) {
+		case *iface.EventPubSubJoin:
+			if ev.Peer == hB.ID() {
+				joins2++
+			}
+		case *iface.EventPubSubLeave:
+			if ev.Peer == hB.ID() {
+				leaves++
+			}
+		}
+	}
+	if joins2 != 1 || leaves != 1 {
+		return fw.Verdict{Status: fw.Violated, Key: "membership-event-wrong/raw", NonTrivial: true, What: fmt.Sprintf("the remote peer left the topic and joined it again (it receives messages again): %d leave and %d further join event(s) were reported, expected 1 and 1", leaves, joins2)}
+	}
+	v.Count("raw_rejoin_checks", 1)
 	v.Count("raw_messages_checked", int64(len(sent)))
 	v.Status = fw.Held
 	v.NonTrivial = true
